@@ -295,6 +295,15 @@ func (tc *travCollector) collect(sc travScope) *travReads {
 			out.escape(sc.kind, "the node itself is passed to "+name+" at "+m.c.Pos(call.Pos()))
 		}
 		if len(carried) == 0 {
+			// a constructor: a module function that receives no node but returns one — the literals
+			// it builds are built by this code (a composite literal moved into a helper)
+			if callee != nil && m.decls[callee] != nil {
+				if sg, ok := callee.Type().(*types.Signature); ok && sg.Results().Len() >= 1 && len(m.carrierStructs(sg.Results().At(0).Type())) > 0 {
+					for s, ls := range tc.summary(callee).lits {
+						out.lits[s] = append(out.lits[s], ls...)
+					}
+				}
+			}
 			return
 		}
 		if callee != nil && m.decls[callee] != nil {
